@@ -22,7 +22,13 @@ var c08Kinds = []string{
 	"<table><thead><tr><th>h%d</th><th>x</th></tr></thead><tbody><tr><td>a</td><td>b</td></tr></tbody></table>",
 	"<ul><li>item%d</li></ul>",
 	"loose%d text%d ",
+	"<iframe src=\"https://player.vimeo.com/video/12%d\"></iframe>",
+	"<iframe src=\"https://platform.twitter.com/embed/x\" data-tweet-id=\"77%d\"></iframe>",
+	"<picture><img src=\"p%d.png\"></picture>",
 }
+
+// c08Marks: what identifies the media element of kind k at position i in the output
+var c08Marks = map[int]string{1: "i%d.png", 2: "f%d.png", 3: "v%d.mp4", 4: "yt%d", 5: "<th>h%d</th>", 8: "12%d", 9: "77%d", 10: "p%d.png"}
 
 func c08Page(n int) (string, []int) {
 	var sb strings.Builder
@@ -149,11 +155,26 @@ func fmtBool(b bool) string {
 // real RelevantElements + LeadImageFinder (as ExtractContent runs them).
 func HarnessC08Flags() {
 	n := vx.Param("n", 4)
-	page, _ := c08Page(n)
+	page, kinds := c08Page(n)
 	doc := vx.ParseHTML(page)
 	b := webdoc.NewWebDocumentBuilder(c08Counter{}, nil)
 	converter.NewDomConverter(converter.Default, b, nil, nil).Convert(dom.QuerySelector(doc, "html"))
 	wd := b.Build()
+	// every media element of the source is there: with everything retained, each
+	// one shows up in the distilled HTML (a medium that follows retained text is
+	// retained, whatever kind it is)
+	for _, e := range wd.Elements {
+		e.SetIsContent(true)
+	}
+	all := wd.GenerateOutput(false)
+	for i, k := range kinds {
+		if m, ok := c08Marks[k]; ok {
+			vx.Assert(strings.Contains(all, strings.ReplaceAll(m, "%d", string(rune('0'+i)))), "a medium of the source is missing from the output although everything is retained: "+c08Kinds[k])
+		}
+	}
+	for _, e := range wd.Elements {
+		e.SetIsContent(false) // as the converter left them
+	}
 	flags := map[webdoc.Element]bool{}
 	for _, e := range wd.Elements {
 		if _, ok := e.(*webdoc.Text); ok {
